@@ -61,6 +61,10 @@ CHECKS = {
                 text="every update program of one or two (thorough: three) actions over the action alphabet, on a typed item and on a key-only item, through interpreter.Language.Update and through UpdateItem of both SDK clients (existing and absent key), yields exactly the reference result (targets set, removed attributes gone, every untargeted attribute identical) or is rejected without change; never a panic",
                 note="overlapping target paths are outside the alphabet; numbers up to 15 digits here (exactness is C12's); three recorded findings pinned by repository tests are attributed by defect models",
                 ref="DESIGN.md 3/C07"),
+    "C09": dict(engine="E2", technique=E2 + "; plus a reference recogniser for strictness",
+                text="every token string up to length 4 (5; 5 (6) over the core alphabet), every byte string of length <= 2 and every byte embedded at every position of three valid sentences, in both grammars: no panic, termination, and every string the generous reference recogniser rejects is rejected; at the client API never a silently successful call",
+                note="strings longer than the token bound are only covered by directed pumped sentences up to 4 KB; the recogniser is deliberately generous (it only rejects unknown characters, incomplete or unbalanced sentences, trailing/juxtaposed tokens)",
+                ref="DESIGN.md 3/C09"),
 }
 
 PENDING = {}
